@@ -2,7 +2,7 @@
 from __future__ import annotations
 
 from . import scopes
-from . import lib_schema, lib_module, lib_py
+from . import lib_schema, lib_module, lib_py, lib_mem
 
 LEVEL = "other"
 EXPLANATION = ("Column-schema completeness of every row/column operation family on the eight tables (obligations generated "
@@ -17,6 +17,7 @@ def run(ctx):
     tbl = lambda f: "_table_" in f and not f.startswith("tsk_table_collection") and not f.startswith("tsk_table_sorter")
     S = lib_schema.all_families(ctx, P, funcs=tbl)
     lib_schema.getters(ctx, P, S)
+    lib_mem.sizeof_elements(ctx, P, tus=["tables"], funcs=tbl)
     lib_module.array_flags(ctx, P, only=ms)
     lib_module.owned_arrays(ctx, P)
     lib_module.format_types(ctx, P, only=ms)
